@@ -16,11 +16,10 @@ fn run_tptp_format(e: &Sexp) -> Result<Sexp, String> {
     Ok(s(&format!("{}", Format(&f))))
 }
 
-// ---- problem_display: problem -> the bytes of format!("{problem}")
+// ---- problem_display: problem -> the bytes of format!("{problem}") (any problem, also raw ones)
 fn gen_problem(rng: &mut Rng) -> Sexp {
     let raw = tg::raw_problem(rng);
-    // mostly the pipeline of the tasks: add_annotated_formulas, rename, unique names, decompose
-    let p = if rng.chance(85) {
+    let p = if rng.chance(70) {
         let p = pb::Problem::with_name("problem")
             .add_annotated_formulas(raw.formulas)
             .rename_conflicting_symbols()
@@ -35,6 +34,35 @@ fn gen_problem(rng: &mut Rng) -> Sexp {
 fn run_problem_display(e: &Sexp) -> Result<Sexp, String> {
     let p = conv::parse_problem(e)?;
     Ok(s(&format!("{p}")))
+}
+
+// ---- problem_emit: (raw problem, decomposition) -> the texts of the emitted problems
+//      (add_annotated_formulas, rename_conflicting_symbols, create_unique_formula_names,
+//       decompose, Display): what `verify` writes with --save-problems
+fn gen_emit(rng: &mut Rng) -> Sexp {
+    let mut raw = tg::raw_problem(rng);
+    if !raw.formulas.iter().any(|f| f.role == pb::Role::Conjecture) {
+        raw.formulas.last_mut().unwrap().role = pb::Role::Conjecture;
+    }
+    l(vec![conv::problem(&raw), a(if rng.chance(50) { "independent" } else { "sequential" })])
+}
+fn run_emit(e: &Sexp) -> Result<Sexp, String> {
+    match e.as_list()? {
+        [p, d] => {
+            let raw = conv::parse_problem(p)?;
+            let p = pb::Problem::with_name(raw.name.clone())
+                .add_annotated_formulas(raw.formulas)
+                .rename_conflicting_symbols()
+                .create_unique_formula_names();
+            let parts = match d.as_str()? {
+                "independent" => p.decompose_independent(),
+                "sequential" => p.decompose_sequential(),
+                _ => return Err("decomposition".into()),
+            };
+            Ok(l(parts.iter().map(|q| s(&format!("{q}"))).collect()))
+        }
+        _ => Err("problem_emit: (problem decomposition) expected".into()),
+    }
 }
 
 // ---- problem_pipeline: (raw problem, decomposition) -> the emitted problems, as trees
@@ -95,6 +123,7 @@ pub fn ops() -> Vec<Op> {
     vec![
         Op { name: "tptp_format", generate: gen_formula, run: run_tptp_format },
         Op { name: "problem_display", generate: gen_problem, run: run_problem_display },
+        Op { name: "problem_emit", generate: gen_emit, run: run_emit },
         Op { name: "problem_pipeline", generate: gen_pipeline, run: run_pipeline },
         Op { name: "strong_transition", generate: gen_programs, run: run_strong_transition },
     ]
